@@ -560,6 +560,12 @@ func caseSensitiveVariable(v variables.RuleVariable) bool {
 	return res
 }
 
+// CaseSensitiveVariable reports whether key selectors and exceptions of v keep their case
+// (see caseSensitiveVariable); used by ctl to treat regex keys like the rule parser does.
+func CaseSensitiveVariable(v variables.RuleVariable) bool {
+	return caseSensitiveVariable(v)
+}
+
 // newRuleVariableParams creates a new ruleVariableParams
 // knows if a key needs to be lowercased. This probably should not be here,
 // but the knowledge of the type of the Map it not here also, so let's start with this.
